@@ -338,7 +338,7 @@ func parseContractFile(path, pkgPath string) (*ContractFile, error) {
 				return nil, err
 			}
 			cur.HasAssigns = true
-			for _, a := range strings.Split(rest, ",") {
+			for _, a := range splitTop(rest) {
 				a = strings.TrimSpace(a)
 				if a != "" && a != "none" {
 					cur.Assigns = append(cur.Assigns, a)
@@ -393,6 +393,34 @@ func parseContractFile(path, pkgPath string) (*ContractFile, error) {
 		}
 	}
 	return cf, nil
+}
+
+// splitTop splits at commas that are not inside brackets.
+func splitTop(s string) []string {
+	var out []string
+	depth, start := 0, 0
+	for i := 0; i < len(s); i++ {
+		switch s[i] {
+		case '(', '[', '{':
+			depth++
+		case ')', ']', '}':
+			depth--
+		case ',':
+			if depth == 0 {
+				out = append(out, s[start:i])
+				start = i + 1
+			}
+		}
+	}
+	return append(out, s[start:])
+}
+
+// splitAssign: "A_T[expr]" -> ("A_T", "expr"); "A_T" -> ("A_T", "").
+func splitAssign(a string) (string, string) {
+	if i := strings.Index(a, "["); i > 0 && strings.HasSuffix(a, "]") && !strings.HasPrefix(a, "*") {
+		return a[:i], a[i+1 : len(a)-1]
+	}
+	return a, ""
 }
 
 func firstWord(s string) string {
